@@ -122,7 +122,14 @@ func initKernel() {
 				duration = durationVal.AsInlineTimeSpan()
 			}
 
-			time.Sleep(duration.Native())
+			// sleep, but wake up when the thread gets aborted
+			timer := time.NewTimer(duration.Native())
+			select {
+			case <-timer.C:
+			case <-vm.Aborter.Context().Done():
+				timer.Stop()
+				return value.Undefined, value.ExecutionAbortedError.ToValue()
+			}
 
 			return value.Nil, value.Undefined
 		},
